@@ -256,33 +256,36 @@ class SInt:
 
 
 class BStr:
-    """bounded symbolic string"""
+    """bounded symbolic string: cap concrete code point expressions (cap <= L) and a z3 Int length n <= cap"""
 
     def __init__(self, chars, n):
-        self.c = chars
+        self.c = list(chars)
+        self.cap = len(self.c)
         self.n = n
 
     @staticmethod
     def sym(name, minlen=0, maxlen=None):
         L = CTX.L
-        s = BStr([z3.Int('%s_%d' % (name, i)) for i in range(L)], z3.Int(name + '_n'))
-        CTX.add(s.n >= minlen, s.n <= (L if maxlen is None else min(L, maxlen)))
+        cap = L if maxlen is None else min(L, maxlen)
+        s = BStr([z3.Int('%s_%d' % (name, i)) for i in range(cap)], z3.Int(name + '_n'))
+        CTX.add(s.n >= minlen, s.n <= cap)
         for ch in s.c:
             CTX.add(z_in_alphabet(ch))
         return s
 
     @staticmethod
     def const(t):
-        L = CTX.L
-        if len(t) > L:
+        if len(t) > CTX.L:
             raise BoundExceeded()
-        return BStr([z3.IntVal(ord(x)) for x in t] + [z3.IntVal(0)] * (L - len(t)), z3.IntVal(len(t)))
+        return BStr([z3.IntVal(ord(x)) for x in t], z3.IntVal(len(t)))
 
     def at(self, i):
         if isinstance(i, int):
-            return self.c[i] if 0 <= i < CTX.L else z3.IntVal(-1)
+            return self.c[i] if 0 <= i < self.cap else z3.IntVal(-1)
+        if z3.is_int_value(i):
+            return self.at(i.as_long())
         e = z3.IntVal(-1)
-        for k in reversed(range(CTX.L)):
+        for k in reversed(range(self.cap)):
             e = z3.If(i == k, self.c[k], e)
         return e
 
@@ -296,7 +299,6 @@ class BStr:
         return CTX.decide(self.n > 0)
 
     def __getitem__(self, ix):
-        L = CTX.L
         if isinstance(ix, slice):
             if ix.step is not None:
                 raise Unsupported('slice step')
@@ -305,32 +307,39 @@ class BStr:
             # the code under test only uses non-negative bounds; make that an obligation
             if not CTX.decide(z3.And(a >= 0, b >= 0)):
                 raise Unsupported('negative slice bound')
+            a_raw = z3.simplify(a)
+            b_raw = z3.simplify(b)
             a = z3.simplify(z3.If(a > self.n, self.n, a))
             b = z3.simplify(z3.If(b > self.n, self.n, b))
             n = z3.simplify(z3.If(b - a > 0, b - a, 0))
-            if z3.is_int_value(a):
-                av = a.as_long()
-                return BStr([self.at(av + i) if av + i < L else z3.IntVal(0) for i in range(L)], n)
-            return BStr([self.at(a + i) for i in range(L)], n)
+            if z3.is_int_value(a_raw):
+                # characters beyond the (clamped) length are never looked at, so direct indexing is exact
+                av = a_raw.as_long()
+                cap = max(0, self.cap - av)
+                if z3.is_int_value(b_raw):
+                    cap = max(0, min(cap, b_raw.as_long() - av))
+                return BStr([self.c[av + i] for i in range(cap)], n)
+            cap = self.cap
+            if z3.is_int_value(b_raw):
+                cap = min(cap, b_raw.as_long())
+            return BStr([self.at(a + i) for i in range(cap)], n)
         i = lift(ix)
         if not CTX.decide(z3.And(i >= 0, i < self.n)):
             if CTX.decide(z3.And(i < 0, i >= -self.n)):
                 raise Unsupported('negative index')
             raise IndexError('string index out of range')
-        if isinstance(ix, int):
-            return BStr([self.c[ix]] + [z3.IntVal(0)] * (L - 1), z3.IntVal(1))
-        return BStr([self.at(i)] + [z3.IntVal(0)] * (L - 1), z3.IntVal(1))
+        return BStr([self.at(ix if isinstance(ix, int) else i)], z3.IntVal(1))
 
     def find(self, t):
         if not (isinstance(t, str) and len(t) == 1):
             raise Unsupported('find of a non single-character needle')
         e = z3.IntVal(-1)
-        for k in reversed(range(CTX.L)):
+        for k in reversed(range(self.cap)):
             e = z3.If(z3.And(k < self.n, self.c[k] == ord(t)), k, e)
-        return SInt(e)
+        return SInt(z3.simplify(e))
 
     def all_chars(self, pred):
-        return z3.And(*[z3.Implies(k < self.n, pred(self.c[k])) for k in range(CTX.L)])
+        return z3.And(*[z3.Implies(k < self.n, pred(self.c[k])) for k in range(self.cap)])
 
     def isdigit(self):
         return SBool(z3.And(self.n > 0, self.all_chars(z_isdigit)))
@@ -342,7 +351,8 @@ class BStr:
             o = BStr.const(o)
         if not isinstance(o, BStr):
             return z3.BoolVal(False)
-        return z3.And(self.n == o.n, *[z3.Implies(k < self.n, self.c[k] == o.c[k]) for k in range(CTX.L)])
+        m = min(self.cap, o.cap)
+        return z3.And(self.n == o.n, self.n <= m, *[z3.Implies(k < self.n, self.c[k] == o.c[k]) for k in range(m)])
 
     def __eq__(self, o):
         return SBool(self.eqe(o)) if isinstance(o, (str, BStr)) else False
@@ -355,12 +365,9 @@ class BStr:
 
     def decimal_value(self):
         v = z3.IntVal(0)
-        for k in range(CTX.L):
+        for k in range(self.cap):
             v = z3.If(k < self.n, v * 10 + z_decval(self.c[k]), v)
         return v
-
-    def startswith_e(self, ch):
-        return z3.And(self.n > 0, self.c[0] == ord(ch))
 
     def concrete(self, model):
         n = model.eval(self.n, model_completion=True).as_long()
@@ -376,13 +383,14 @@ def _concat(a, b):
     if not isinstance(a, BStr) or not isinstance(b, BStr):
         return NotImplemented
     n = z3.simplify(a.n + b.n)
-    if CTX.decide(n > L):
+    if a.cap + b.cap > L and CTX.decide(n > L):
         raise BoundExceeded()
+    cap = min(L, a.cap + b.cap)
     if z3.is_int_value(a.n):
         an = a.n.as_long()
-        chars = [a.c[i] if i < an else b.c[i - an] for i in range(L)]
+        chars = [a.c[i] if i < an else b.at(i - an) for i in range(cap)]
     else:
-        chars = [z3.If(i < a.n, a.c[i], b.at(i - a.n)) for i in range(L)]
+        chars = [z3.If(i < a.n, a.c[i] if i < a.cap else z3.IntVal(0), b.at(i - a.n)) for i in range(cap)]
     return BStr(chars, n)
 
 
